@@ -1,15 +1,4 @@
 #!/bin/bash
-# usage: benignregress.sh "<checks>" ["<seeded/benign-dirs>"]  — applies every kept benign patch to /repo in turn and runs the given checks (quick); all must stay quiet
-checks=${1:-"C01 C02 C03 C04 C05 C06 C07 C08 C09 C10 C11 C12 C13 C14 C15 C16 C17 C18 C19"}
-cd /verif
-for d in ${2:-seeded/benign-*}; do
-  b=$(basename $d)
-  git -C /repo apply /verif/$d/patch.diff 2>/dev/null || { echo "$b: patch does not apply"; continue; }
-  res=""
-  for p in $checks; do
-    out=$(/verif/run.sh $p quick 2>&1); rc=$?
-    [ $rc != 0 ] && res="$res $p:rc=$rc"
-  done
-  git -C /repo checkout -q -- . ; git -C /repo clean -fdq
-  echo "$b: ${res:-all quiet}"
-done
+# re-runs every kept property-preserving patch against all 19 checks (quick), 3 at a time, in experiment mode
+export BENIGN_ALT=1
+ls -d /verif/seeded/benign-*/ | xargs -P ${1:-3} -I{} sh -c 'd={}; id=$(basename $d); id=${id#benign-}; /verif/benigneval.sh $d $id 2>&1 | tail -1'
